@@ -33,7 +33,20 @@ def mlw_continuations(case):
 ENGINES = {
     "mlw": {"continuations": mlw_continuations},
     "fmt": {},
+    "queue": {"liveness_marker": "T"},
 }
+
+CROSSBEAM = "crossbeam_channel bounded/unbounded channels are linearizable FIFO queues with atomic try_send/recv/is_empty; std::thread::spawn; Arc drop order; unwinding through the worker into Sentinel::drop (all modelled as atomic labels, not verified)"
+_Q_TB = [KERNEL, TIE, CROSSBEAM]
+_Q_RULE = ("engine queue: QueuingMetricSink with a gated scripted wrapped sink (records thread, order, its own Drop); every history over "
+           "{emit h, clone, drop, finish ok/err/panic, read counters} to depth 4(6) over 2 handles for capacities {1,2,(3),unbounded}; "
+           "back-pressure tables (capacity 1..8, gate closed) and last-drop at every occupancy with every outcome pattern; seeded random "
+           "histories (<= 5 handles, capacities 1..8/unbounded, handler on/off); free-running multi-producer stress. The engine waits "
+           "event-driven for exactly the events the history makes due (no conclusion from silence except a reported timeout, re-run "
+           "with 5x the timeout before it counts). Distinct by text; non-trivial = contains a clone, drop, error, panic, refusal or counter read")
+_Q_NOTE = ("Trusted: Lean kernel + propext/Classical.choice/Quot.sound; the LTS's atomicity granularity (crossbeam, Arc, thread spawn, "
+           "unwinding) is modelled; real-thread schedules are sampled by the harness in the sequentialised (quiescent) schedule plus "
+           "free-running stress, not enumerated; capacity 0 (rendezvous channel) is outside the model")
 
 STD_DISPLAY = "impl Display for integers and f64 (std), str::trim_end_matches, String concatenation, Duration::as_millis/as_nanos are modelled, not verified"
 _FMT_TB = [KERNEL, TIE, STD_DISPLAY]
@@ -127,6 +140,66 @@ PROPS = {
         "rule": _WRITER_RULE,
         "exhaustive_part": "small-scope enumeration of the mlw engine incl. every fault assignment to depth 2(3); the random parts are sampled",
     },
+    "C08": {
+        "engine": "queue",
+        "level_text": 'Lean 4 theorems C08.exactly_once_in_order / per_producer_order / worker_alive_while_handle_alive / worker_makes_progress / quiescent_schedule_is_a_run: an inductive invariant of the queuing-sink LTS over all interleavings of producers, clones, drops, worker steps and wrapped-sink outcomes; liveness as progress + bounded worker runs.',
+        "level_note": _Q_NOTE,
+        "technique": 'Lean 4 proof (inductive invariant of a labelled transition system over all schedules; progress + termination measure) + sequentialised correspondence + stress',
+        "trusted_base": _Q_TB,
+        "assumptions": [CROSSBEAM, "the wrapped sink returns from every call (liveness statements)", "the scheduler does not starve the worker thread"],
+        "rule": _Q_RULE,
+        "exhaustive_part": "all histories to the stated depth over 2 handles; back-pressure and last-drop tables; random and stress parts are sampled",
+    },
+    "C09": {
+        "engine": "queue",
+        "level_text": 'Lean 4 theorems C09.drop_never_blocks / stop_request_survives / last_drop_terminates / drains_before_release over the same LTS, for every capacity >= 1 or unbounded, every occupancy (full queue included) and every outcome script.',
+        "level_note": _Q_NOTE,
+        "technique": 'Lean 4 proof (invariant + progress + termination measure after the last drop) + last-drop correspondence at every occupancy',
+        "trusted_base": _Q_TB,
+        "assumptions": [CROSSBEAM, "the wrapped sink returns from every call (liveness statements)", "the scheduler does not starve the worker thread"],
+        "rule": _Q_RULE,
+        "exhaustive_part": "all histories to the stated depth over 2 handles; back-pressure and last-drop tables; random and stress parts are sampled",
+    },
+    "C10": {
+        "engine": "queue",
+        "level_text": "Lean 4 theorems C10.emit_depends_only_on_room / capacity_never_exceeded / unbounded_accepts_all / callers_never_run_the_sink. PARTIAL for 'promptly': non-blocking is a theorem of the model and of crossbeam's try_send contract; wall-clock latency is observed (2 s watchdog).",
+        "level_note": _Q_NOTE + '; wall-clock promptness is a runtime observation',
+        "technique": 'Lean 4 proof (emit result is a function of queue room; capacity invariant; actor separation) + gate-closed correspondence',
+        "trusted_base": _Q_TB,
+        "assumptions": [CROSSBEAM, "the wrapped sink returns from every call (liveness statements)", "the scheduler does not starve the worker thread"],
+        "rule": _Q_RULE,
+        "exhaustive_part": "all histories to the stated depth over 2 handles; back-pressure and last-drop tables; random and stress parts are sampled",
+    },
+    "C11": {
+        "engine": "queue",
+        "level_text": 'Lean 4 theorems C11.panic_consumes_only_the_metric / delivery_survives_panics / keeps_accepting / panic_count_exact / stop_honoured_after_panic over the same LTS (reachability includes every pattern of panics).',
+        "level_note": _Q_NOTE,
+        "technique": 'Lean 4 proof (invariant across panic/respawn transitions) + scripted-panic correspondence',
+        "trusted_base": _Q_TB,
+        "assumptions": [CROSSBEAM, "the wrapped sink returns from every call (liveness statements)", "the scheduler does not starve the worker thread"],
+        "rule": _Q_RULE,
+        "exhaustive_part": "all histories to the stated depth over 2 handles; back-pressure and last-drop tables; random and stress parts are sampled",
+    },
+    "C15": {
+        "engine": "queue",
+        "level_text": 'Lean 4 theorems C15.counters_track_history / refused_not_counted / quiescent_values / queued_never_wraps; try_send/count and recv/count are separate labels so the overtaking window is in the model.',
+        "level_note": _Q_NOTE,
+        "technique": 'Lean 4 proof (counter invariants over all interleavings; saturating difference bounds) + counter-read correspondence and concurrent sampling',
+        "trusted_base": _Q_TB,
+        "assumptions": [CROSSBEAM, "the wrapped sink returns from every call (liveness statements)", "the scheduler does not starve the worker thread"],
+        "rule": _Q_RULE,
+        "exhaustive_part": "all histories to the stated depth over 2 handles; back-pressure and last-drop tables; random and stress parts are sampled",
+    },
+    "C16": {
+        "engine": "queue",
+        "level_text": 'Lean 4 theorems C16.handler_sees_each_error_once / handler_before_next_metric / handler_on_worker / delivery_independent_of_handler: the real-time event log is, call by call, enter then (handled iff failed and configured).',
+        "level_note": _Q_NOTE,
+        "technique": 'Lean 4 proof (trace-structure invariant) + scripted Ok/Err correspondence with and without handler',
+        "trusted_base": _Q_TB,
+        "assumptions": [CROSSBEAM, "the wrapped sink returns from every call (liveness statements)", "the scheduler does not starve the worker thread"],
+        "rule": _Q_RULE,
+        "exhaustive_part": "all histories to the stated depth over 2 handles; back-pressure and last-drop tables; random and stress parts are sampled",
+    },
     "C19": {
         "engine": "mlw",
         "level_text": "Lean 4 theorems C19.write_only_when_needed / flush_writes_only_pending / emits_are_greedy / greedy_is_minimal / greedy_groups_fit: writes happen only when forced, emit runs produce the in-order greedy packing, which is minimal among all in-order packings.",
@@ -141,6 +214,8 @@ PROPS = {
 
 
 MANIFEST_ENGINES = [
+    {"name": "queue", "path": "harness/src/bin/queue.rs", "serves_properties": ["C08", "C09", "C10", "C11", "C15", "C16"],
+     "kind_free_text": "drives QueuingMetricSink / its builder with a gated scripted wrapped sink recording thread id, call order, handler calls and its own Drop; plus free-running multi-producer stress"},
     {"name": "fmt", "path": "harness/src/bin/fmt.rs", "serves_properties": ["C01", "C02", "C03", "C04"],
      "kind_free_text": "drives StatsdClient (24 entry points x 3 call forms x builder options), the standalone constructors, a scripted MetricSink and a recording error handler"},
     {"name": "mlw", "path": "harness/src/bin/mlw.rs", "serves_properties": ["C05", "C06", "C07", "C19"],
